@@ -79,6 +79,13 @@ CHECKS = {
              'of each element must equal that of a database freshly built from the final content.',
         note='The abstract model is edited by mirror functions; histories whose final content cannot be built (two tables with one full name) are skipped and counted. Histories are never merged by content.',
         design='DESIGN.md §3 C10'),
+    'C11': dict(
+        level='model_checking', technique='explicit-state exploration of call histories over the shared grammar state (warm and cold start, snapshot state graph, census), result-pair reachability + mutation oracle, stateless preemption-bounded schedule exploration with a controlled thread scheduler, fresh-process cross-check',
+        text='Every history of up to 2 calls over 39 calls (13 documents x 3 option sets) and up to 3 (quick) / 4 (thorough) over a reduced alphabet is executed from the warm and from the cold shared state; every outcome must equal the isolated outcome, earlier results must stay intact, '
+             'and the census of live pydbml objects must return to the baseline. Every ordered pair of results must share no mutable object and survive exhaustive mutation of the other. Pairs of calls run in two threads under every schedule with at most one preemption at any pydbml '
+             'line event (warm, and cold-start for some pairs) and must give their isolated outcomes. Every call is repeated in a fresh interpreter.',
+        note='Scheduling points are line events in <repo>/pydbml frames; pyparsing frames run untraced between them. The shared-state snapshot (verif/heap.py) excludes display-name caches and is reported as evidence; the verdict is outcome equality, object sharing and the census.',
+        design='DESIGN.md §3 C11'),
     'C12': dict(
         level='exploration', technique='exhaustive configuration product (9 routes x BOM x 5 option sets x document set), differential oracle against the string route',
         text='Every combination of source route, byte-order mark, option set and document (ASCII, non-ASCII, with properties, empty, comment-only, CRLF, six invalid ones) is executed; content, .sql, .dbml, '
